@@ -5,6 +5,7 @@
 #ifndef DUNE_MALLOC_ALLOCATOR_HH
 #define DUNE_MALLOC_ALLOCATOR_HH
 
+#include <cstddef>
 #include <exception>
 #include <cstdlib>
 #include <new>
@@ -58,7 +59,16 @@ namespace Dune
       if (n > this->max_size())
         throw std::bad_alloc();
 
-      pointer ret = static_cast<pointer>(std::malloc(n * sizeof(T)));
+      pointer ret;
+#if !defined(_MSC_VER)
+      // malloc only guarantees alignof(std::max_align_t); the size passed to
+      // aligned_alloc is a multiple of the alignment, and the block can be
+      // given back with free
+      if constexpr (alignof(T) > alignof(std::max_align_t))
+        ret = static_cast<pointer>(std::aligned_alloc(alignof(T), n * sizeof(T)));
+      else
+#endif
+        ret = static_cast<pointer>(std::malloc(n * sizeof(T)));
       if (!ret)
         throw std::bad_alloc();
       return ret;
